@@ -38,17 +38,6 @@ theorem killAll_indep_zero (cs : List (Cpt K)) : ∀ c ∈ killAll cs, ∀ v ∈
     · exact coupMap_zero_indep coup v hv
   | _ => simp_all [Cpt.mapSrc, Cpt.indep]
 
-/-- the circuits on which impedance / transimpedance / current_gain are measured: killed netlist + test source(s) -/
-theorem zProbe_is_killed (cs : List (Cpt K)) (p m : Nat) :
-    ∃ probe, zProbe cs p m = killAll cs ++ probe ∧ ∀ c ∈ killAll cs, ∀ v ∈ c.indep, v = 0 :=
-  ⟨_, rfl, killAll_indep_zero cs⟩
-
-/-- the circuits on which admittance / transfer / voltage_gain / transadmittance are measured -/
-theorem vProbe_is_killed (cs : List (Cpt K)) (p m b : Nat) :
-    ∃ cs' probe, vProbe cs p m b = killAll cs' ++ probe ∧ (∀ c ∈ cs', c ∈ cs) ∧
-      ∀ c ∈ killAll cs', ∀ v ∈ c.indep, v = 0 :=
-  ⟨_, _, rfl, fun _ hc => (List.mem_filter.mp hc).1, killAll_indep_zero _⟩
-
 /-- **killed_ivp_is_lap**: for a circuit whose independent quantities are all zero except possibly its V and I
     sources (the test sources), the initial-value-problem laws are the zero-state Laplace laws: "initial conditions
     set to zero". -/
@@ -332,5 +321,23 @@ example (i1 i2 : ℚ) : C01.Nonsingular .dc 0 (zDrive exT 1 0 2 0 i1 i2) := by
   have e2 : z (node 2) = 0 := by rw [e3] at h2; linarith
   rcases hi with h | h | h | h | h | h | h | h | h | h | h | h | h | h | h <;> subst h <;>
     first | assumption | exact absurd rfl hi0
+
+/-- non-vacuity of `yparams_rel`: 1 V at port 1, 0 V at port 2 of the T network: V(3) = 6/11, the sources deliver
+    5/11 A and −3/11 A (the first column of Y) -/
+def exTy1 : Ix → ℚ := fun i => match i with | node 1 => 1 | node 2 => 0 | node 3 => 6/11 | br 0 => -5/11 | br 1 => 3/11 | _ => 0
+
+example : Solves .dc 0 (yDrive exT 1 0 2 0 0 1 1 0) exTy1 := by
+  rw [C01.mna_iff_laws _ _ _ _ (by simp [C01.WF, yDrive, killAll, exT, owned, Cpt.mapSrc])]
+  constructor
+  · intro k hk
+    match k with
+    | 0 => exact absurd rfl hk
+    | 1 => norm_num [yDrive, killAll, exT, Cpt.mapSrc, exTy1, outflow, twoTerm, lsum, vd, volt]
+    | 2 => norm_num [yDrive, killAll, exT, Cpt.mapSrc, exTy1, outflow, twoTerm, lsum, vd, volt]
+    | 3 => norm_num [yDrive, killAll, exT, Cpt.mapSrc, exTy1, outflow, twoTerm, lsum, vd, volt]
+    | (k + 4) => simp [yDrive, killAll, exT, Cpt.mapSrc, outflow, twoTerm, lsum]
+  · intro c hc p hp
+    simp [yDrive, killAll, exT, Cpt.mapSrc] at hc
+    rcases hc with rfl | rfl | rfl | rfl | rfl <;> simp [laws] at hp <;> (try subst hp) <;> norm_num [vd, volt, exTy1]
 
 end Lcapy.C04
